@@ -19,6 +19,26 @@ import (
 
 var floatMantissas = []float64{1, 1.5, 9.999999, 2.5000001, 7}
 
+// bytesGivenAsArray: a []byte target accepts a JSON array of numbers as well as a base64 string; in
+// the array form it is decoded like any other slice, whose backing array a later decode may reuse.
+func bytesGivenAsArray(text string, t reflect.Type) bool {
+	v, err := jr.Parse([]byte(text))
+	if err != nil {
+		return false
+	}
+	if t.Kind() == reflect.Slice && t.Elem().Kind() == reflect.Uint8 {
+		return v.K == jr.Arr
+	}
+	if v.K == jr.Obj {
+		for i, k := range v.Keys {
+			if strings.EqualFold(k, "blob") && v.Vals[i].K == jr.Arr {
+				return true
+			}
+		}
+	}
+	return false
+}
+
 // derefAll renders the byte slices ([]byte decoded from base64 strings) reachable from v without
 // passing through another slice or a map: encoding/json gives each of them storage of its own on
 // every decode, whereas the reuse of the backing arrays of other slices is documented behaviour
@@ -590,6 +610,11 @@ func init() {
 			{Name: "marshal-go-values", Count: n(30000, 2400000), Run: func(c *core.Ctx, idx int) {
 				judgeMarshal(c, genGo(c.R, 3), "dynamic")
 			}},
+			{Name: "deep-values-with-interior-pointers", Exhaustive: true, Count: func(core.Tier) int { return deepValueCount }, Run: func(c *core.Ctx, idx int) {
+				v, what := deepValue(idx)
+				judgeMarshal(c, v, "deep: "+what)
+				c.Count("deep-values:checked")
+			}},
 			{Name: "generated-struct-types", Count: n(400, 12000), Run: func(c *core.Ctx, idx int) {
 				var t reflect.Type
 				pn := mon.Try(func() { t = genStructType(c.R, 2) })
@@ -743,8 +768,12 @@ func init() {
 				var fkept, skept []string
 				d := map[string]any{"type": clip(t.String(), 400)}
 				var texts []string
+				arrayForm := false
 				for k := 0; k < 4; k++ {
 					text := genTextFor(c.R, t, 3)
+					if bytesGivenAsArray(text, t) {
+						arrayForm = true
+					}
 					texts = append(texts, clip(text, 300))
 					var ferr error
 					pn := mon.Try(func() { ferr = ij.Unmarshal([]byte(text), fv.Interface()) })
@@ -768,7 +797,7 @@ func init() {
 					fkept = append(fkept, fmt.Sprintf("%+v", derefAll(fc)))
 					skept = append(skept, fmt.Sprintf("%+v", derefAll(sc2)))
 					defer func(fc, sc2 reflect.Value, i int) {
-						if c.NViolations() > 0 {
+						if c.NViolations() > 0 || arrayForm {
 							return
 						}
 						if now := fmt.Sprintf("%+v", derefAll(fc)); now != fkept[i] {
